@@ -721,6 +721,9 @@ pub fn check_builder(c: &Rec, chunk: usize, ctx: &mut Ctx) -> Result<(), Failure
         if l < size {
             match r {
                 Err(BuildSliceWriteError::Space(req)) if req == size => {}
+                // a stack that cannot be encoded at all carries two faults at once on a short slice: the
+                // space error or the content error of the un-faulted write are both true answers
+                Err(e) if !ok0 && matches!(&r0, Out::Other(m) if format!("{:?}", e) == *m) => {}
                 Err(BuildSliceWriteError::Space(req)) => return cx.fail(ctx, "write_to_slice", "space-error-required-len", &where_, format!("slice of {} bytes for a packet of {}: the error says {} bytes are required", l, size, req)),
                 Ok(n) => return cx.fail(ctx, "write_to_slice", "ok-despite-short-slice", &where_, format!("slice of {} bytes for a packet of {}: Ok({})", l, size, n)),
                 Err(e) => return cx.fail(ctx, "write_to_slice", "other-error", &where_, format!("slice of {} bytes for a packet of {}: {:?}", l, size, e)),
@@ -955,7 +958,7 @@ impl Property for C16 {
         vec![
             "The complete encoding E is what the un-faulted run of the same operation produced (its correctness is C08's / C10's subject).".into(),
             "An injected writer/reader error is recognised by a unique payload type inside io::Error (custom error, ErrorKind::Other), Ok(0) writes by ErrorKind::WriteZero, end of data by ErrorKind::UnexpectedEof; the crate must hand them out in the Io variant of its error type.".into(),
-            "Builder stacks whose un-faulted write ends in a non-I/O error (ICMPv6 inside IPv4: Icmpv6InIpv4 after the IP header was written) are held to: a fault before the bytes the un-faulted run wrote -> that I/O error; otherwise the same content error; write_to_slice with enough space gives the same content error.".into(),
+            "Builder stacks whose un-faulted write ends in a non-I/O error (ICMPv6 inside IPv4: Icmpv6InIpv4 after the IP header was written) are held to: a fault before the bytes the un-faulted run wrote -> that I/O error; otherwise the same content error; write_to_slice with enough space gives the same content error, with a short slice the space error or that content error (two simultaneous faults: preserving change C10i).".into(),
             "BuildSliceWriteError::Space(n) is documented as 'the minimum required length': n must equal size(payload_len) which must equal the number of bytes write produces. SliceWriteSpaceError of the header types must carry required_len == header length and len == slice length.".into(),
             "After a space error the slice must be an (possibly empty) prefix of E followed by untouched bytes.".into(),
             "A LimitedReader with a limit below the header length must answer with the Len error variant whose required_len > len; with limit >= length the read must succeed and pull exactly the header length.".into(),
